@@ -46,6 +46,8 @@ DRead ==
   /\ ev.t = "C"
   /\ IF ev.n < 0 THEN Eof ELSE Refill(ev.n, ev.sp)
   /\ IF WindowInv' THEN TRUE ELSE Reject("window")
+  \* coverage witness: the real buffer was full *and* fully consumed (offset = len = capacity)
+  /\ IF ev.n >= 0 /\ cap > 0 /\ dl - ws = cap /\ Committed = dl THEN PrintT(<<"COVER", "compact-all", i, dl>>) ELSE TRUE
   /\ UNCHANGED <<refEvs, refEnd>>
 DOut ==
   /\ ev.t = "O"
